@@ -4,14 +4,13 @@
       point := { p : s2_Point | unit_pt p },  peq := Go ==,  sign := RobustSign,
       triage := the translated triageSign,  tangent := the crosser's tangent early exit,
 
-    with only H_STABLE_DET (C02) and H_TANGENT (C03) left as premises. *)
+    with only H_TANGENT (C03) left as a premise (H-STABLE-DET is a closed C02 theorem). *)
 From Coq Require Import ZArith List Bool Permutation.
 From Geo Require Import Model.Crosser Model.CrosserExec Model.Contain
   Proofs.C02_Float Proofs.C04_Brute Proofs.C04_Polygon Proofs.Link_C02_C03 Proofs.Link_C03_C04.
 Import ListNotations.
 
 Section Real.
-  Hypothesis HS : H_STABLE_DET.
   Hypothesis HT : H_TANGENT.
   Variable refdir : upoint -> upoint.           (* Point.referenceDir; no law needed *)
   Variables origin emptyPt fullPt zeroPt : upoint.
@@ -24,7 +23,7 @@ Section Real.
   Proof.
     unfold u_eov. apply Link_C03_C04.eov_sym_cd;
       first [ exact u_peq_refl | exact u_peq_sym | exact u_peq_trans
-            | exact (u_sign_rotate HS) | exact (u_sign_swap HS) | exact u_sign_zero_iff
+            | exact u_sign_rotate | exact u_sign_swap | exact u_sign_zero_iff
             | exact u_triage_sound | exact HT ].
   Qed.
 
@@ -32,7 +31,7 @@ Section Real.
   Proof.
     unfold u_eov. apply Link_C03_C04.eov_degenerate_cd;
       first [ exact u_peq_refl | exact u_peq_sym | exact u_peq_trans
-            | exact (u_sign_rotate HS) | exact (u_sign_swap HS) | exact u_sign_zero_iff
+            | exact u_sign_rotate | exact u_sign_swap | exact u_sign_zero_iff
             | exact u_triage_sound | exact HT ].
   Qed.
 
